@@ -91,7 +91,11 @@ def build_manager(cfg, rnd: random.Random, loads=None, small=False):
     elif meth == "BIZONEDRECTANGLE":
         m.set_geometry_constraints_bi_zoned_rectangle(length=round(u(30, 60), 1), width=round(u(20, 40), 1), b_min=4.0, b_max_x=round(u(8, 10), 2), b_max_y=round(u(8, 12), 2))
     elif meth == "BIRECTANGLECONSTRAINED":
-        m.set_geometry_constraints_bi_rectangle_constrained(b_min=5.0, b_max_x=round(u(10, 14), 2), b_max_y=round(u(10, 14), 2), property_boundary=copy.deepcopy(PROP), no_go_boundaries=copy.deepcopy(NOGO))
+        # the API accepts a list of outlines as well as ONE outline given flat (a list of points), and no no-go zone at all
+        shape = rnd.choice(["nested", "flat-nogo", "flat-property", "flat-both", "no-nogo"])
+        prop = copy.deepcopy(PROP) if shape in ("flat-property", "flat-both") else [copy.deepcopy(PROP)]
+        nogo = [] if shape == "no-nogo" else (copy.deepcopy(NOGO[0]) if shape in ("flat-nogo", "flat-both") else copy.deepcopy(NOGO))
+        m.set_geometry_constraints_bi_rectangle_constrained(b_min=5.0, b_max_x=round(u(10, 14), 2), b_max_y=round(u(10, 14), 2), property_boundary=prop, no_go_boundaries=nogo)
     else:
         m.set_geometry_constraints_rowwise(perimeter_spacing_ratio=round(u(0.6, 0.9), 2) if cfg["perimeter"] else None, max_spacing=round(u(10, 14), 1), min_spacing=round(u(5, 8), 1),
                                            spacing_step=0.5, max_rotation=rnd.choice([90.0, 45.0]), min_rotation=rnd.choice([-90.0, -45.0, 0.0]), rotate_step=rnd.choice([5.0, 15.0]),
